@@ -443,6 +443,11 @@ def parse_email(data: bytes | str) -> tuple[RawMetadata, dict[str, list[str]]]:
     try:
         payload = _get_payload(parsed, data)
     except ValueError:
+        # The body cannot be decoded. If there is also a Description header, it
+        # moves to 'unparsed' as well since we don't know which one is right.
+        if "description" in raw:
+            description_header = cast(str, raw.pop("description"))
+            unparsed.setdefault("description", []).append(description_header)
         unparsed.setdefault("description", []).append(
             parsed.get_payload(decode=isinstance(data, bytes))  # type: ignore[call-overload]
         )
